@@ -337,6 +337,11 @@ class RandInfoBuilder(ModelVisitor,RandIF):
         # Summing the array relates all array elements
         for f in e.arr.field_l:
             self.process_fieldref(f)
+            
+    def visit_expr_array_product(self, e):
+        # Multiplying the array relates all array elements
+        for f in e.arr.field_l:
+            self.process_fieldref(f)
 
     def visit_expr_fieldref(self, e):
         # If the field is already referenced by an existing randset
